@@ -96,7 +96,7 @@ class Harness(cm.BaseB):
                         continue
                     if cont == "iter" and m % 5:
                         continue
-                    for ep in ("aspirate_well", "dispense_well") + (("aspirate", "dispense", "transfer_e", "transfer_f", "prep") if cont == "list" else ()):
+                    for ep in ("aspirate_well", "dispense_well") + (("aspirate", "dispense", "transfer_e", "transfer_f", "prep") if cont in ("list", "iter") else ()):
                         yield {"ep": ep, "tip": coll, "cont": cont}
         elif k == "seq":
             f = SYMS[chunk["first"]]
